@@ -4,7 +4,7 @@ use std::hash::{Hash, Hasher};
 
 use paseto_core::key::{HasKey, Key, KeyType};
 use paseto_core::paserk::KeyId;
-use paseto_core::version::{Local, Public, Secret};
+use paseto_core::version::{Local, PkePublic, PkeSecret, Public, Secret};
 use serde_json::json;
 
 use crate::backend::*;
@@ -82,6 +82,12 @@ fn backend<B: Backend, P: Prims>(opts: &Opts, rep: &mut Report) {
         let lid = id_checks::<B, P, Local>(rep, "lid", "local", &l);
         let sid = id_checks::<B, P, Secret>(rep, "sid", "secret", &sk);
         let pid = id_checks::<B, P, Public>(rep, "pid", "public", &pk);
+        // the key-sealing key kinds have ids too (same headers as public / secret)
+        let (ps, pp) = B::gen_pke_pair(&mut rng);
+        if let (Ok(pks), Ok(pkp)) = (key_from_bytes::<B, PkeSecret>(&ps), key_from_bytes::<B, PkePublic>(&pp)) {
+            id_checks::<B, P, PkeSecret>(rep, "sid", "secret", &pks);
+            id_checks::<B, P, PkePublic>(rep, "pid", "public", &pkp);
+        }
         if let (Some(a), Some(b), Some(c)) = (lid, sid, pid) {
             if a == b || a == c || b == c {
                 rep.violation(&format!("C13|{}|ids-of-related-keys-collide", B::NAME), json!({"lid": hx(&a), "sid": hx(&b), "pid": hx(&c)}));
